@@ -12,6 +12,7 @@
   OBLIGATIONS (checked by the harness):
     hints_table nonmatching_passthrough nonmatching_template_irrelevant
     declaration_order_pipeline first_match_wins identity_body_is_identity_partial
+    once_hint_irrelevant
     matcher_state_in_sync output_wellnested select_keeps_nesting
     lawful_single lawful_simple positional_not_lawful root_context_not_matched
 -/
@@ -19,6 +20,7 @@ import Genshi.Lemmas.MatchSync
 import Genshi.Lemmas.MatchPipe
 import Genshi.Lemmas.MatchIns
 import Genshi.Lemmas.MatchPath
+import Genshi.Lemmas.MatchOnce
 import Genshi.Model.MatchPath
 import Genshi.Model.MatchLazy
 import Genshi.Gen.MatchHints
@@ -93,6 +95,25 @@ theorem identity_body_is_identity_partial {σ : Type} (f start : Nat) (end_ : Op
     (hi : ∀ t, Item.reg t ∈ items → NeverFires t ∨ IdentityBody t)
     (h : run f start end_ items mts = some r) : r.2 = evs items :=
   run_identity f start end_ items mts r hm hi h
+
+/-! ### the once hint -/
+
+/-- **once_hint_irrelevant.**  Take any template list, any slot `i` whose template does not carry the
+    hint, any stream (which may register further templates) and run the filter; if that template
+    replaced at most one element (its ghost counter rose by at most one), then the run with
+    `once="true"` set on it yields the same output.  (The hinted run retires the template after its
+    first match; in the content of that match the windows of the two runs differ at slot `i`.) -/
+theorem once_hint_irrelevant {σ : Type} (f : Nat) (items : List (Item σ)) (mts : List (MT σ))
+    (r : List (MT σ) × List Event) (i : Nat) (t : MT σ)
+    (ht : mts[i]? = some t) (ho : t.once = false) (hr : t.retired = false)
+    (h : run f 0 none items mts = some r) (hfew : hitsAt i r.1 ≤ hitsAt i mts + 1) :
+    ∃ c', run f 0 none items (mts.set i (onceAt t)) = some (c', r.2) := by
+  have hi : i < mts.length := (List.getElem?_eq_some_iff.mp ht).1
+  have hrel := prel_set mts 0 i t ht ho hr
+  simp only [Nat.zero_add] at hrel
+  obtain ⟨c', b', h1, _, _⟩ := run_once i f 0 none none items mts _ r false hrel hi (fun _ _ => rfl) h
+    (by simpa using hfew)
+  exact ⟨c', h1⟩
 
 /-! ### matcher state and nesting -/
 
@@ -211,6 +232,15 @@ theorem root_context_not_matched :
                .ev (S 'a'), .ev (E 'a'), .ev (.end_ ⟨[], ['r', 'o', 'o', 't']⟩)]
       = some [.start ⟨[], ['r', 'o', 'o', 't']⟩ [], S 'a', E 'a', .end_ ⟨[], ['r', 'o', 'o', 't']⟩] := by
   decide
+
+/-- `b` occurs once under `a`: the hypothesis of `once_hint_irrelevant` holds (one hit) and the
+    hinted run gives the same output -/
+def docOnce (t : MT PSt) : List (Item PSt) :=
+  [.ev (S 'a'), .ev (S 'b'), .ev (E 'b'), .ev (T 'u'), .ev (E 'a'), .ev (S 'c'), .ev (E 'c')]
+example : (run 30 0 none (docOnce tAB) [tAB, tWrap]).map (fun r => (hitsAt 0 r.1, r.2))
+    = some (1, [S 'w', S 'x', E 'x', E 'w', S 'c', E 'c']) := by decide
+example : (run 30 0 none (docOnce tAB) [onceAt tAB, tWrap]).map (·.2)
+    = (run 30 0 none (docOnce tAB) [tAB, tWrap]).map (·.2) := by decide
 
 example : NeverFires (σ := PSt) { step := fun st _ _ => (st, false), st := {}, body := [] } := fun _ _ _ => rfl
 example : BodyOK tWrap.body := by
